@@ -1,13 +1,20 @@
 /-
 C01 — property theorems (only statements that are obligations of the check).
 Helper lemmas live in OFV/Proofs.  Every theorem is audited with `#print axioms`.
+
+Term-level statements: a term `τ` with coefficient `c` denotes `c · ⟦τ⟧` where `⟦τ⟧` is the
+Spec action on basis states (`Spec.actPTerm` etc.: phase exponent of `i` and new basis mask).
 -/
 import OFV.Model.Program
 import OFV.Spec.Expr
 import OFV.Proofs.Bits
+import OFV.Proofs.C01Sort
+import OFV.Proofs.C01Qubit
+import OFV.Proofs.C01Ising
+import OFV.Proofs.C01Majorana
 
 namespace OFV.C01
-open OFV OFV.Spec OFV.Generated
+open OFV OFV.Spec OFV.Generated OFV.Model
 
 /-- The product table extracted from `qubit_operator.py` on this run is the Pauli
 algebra of the Spec: for all qubits `j` and all basis states `s`,
@@ -17,12 +24,174 @@ theorem pauliTable_sound (a b : Nat) (ha : a < 4) (hb : b < 4) (j s : Nat) :
     let ka := actP j a kb.2
     let pr := pauliProdK a b
     let kr := actP j pr.2 s
-    ka.2 = kr.2 ∧ (kb.1 + ka.1) % 4 = (pr.1 + kr.1) % 4 := by
-  have h1 := xflip_xflip s j
-  have h2 := testBit_xflip s j
-  have : a = 0 ∨ a = 1 ∨ a = 2 ∨ a = 3 := by omega
-  have : b = 0 ∨ b = 1 ∨ b = 2 ∨ b = 3 := by omega
-  rcases ‹a = 0 ∨ _› with rfl | rfl | rfl | rfl <;> rcases ‹b = 0 ∨ _› with rfl | rfl | rfl | rfl <;>
-    cases h : s.testBit j <;> simp [actP, pauliProdK, h, h1, h2]
+    ka.2 = kr.2 ∧ (kb.1 + ka.1) % 4 = (pr.1 + kr.1) % 4 :=
+  pauliTable_sound' a b ha hb j s
+
+/-- `sorted(term, key=index)` is a stable rearrangement: a permutation with
+non-decreasing indices (all classes whose different indices commute). -/
+theorem sort_perm_sorted (t : Term) : (sortF t).Perm t ∧ SortedIdx (sortF t) :=
+  ⟨sortF_perm t, sortF_sorted t⟩
+
+/-- Sorting never changes the operator a Pauli term denotes (any length, repeated
+indices, any basis state). -/
+theorem sort_sound_qubit (t : Term) (s : Nat) : actPTerm (sortF t) s = actPTerm t s :=
+  actPTerm_sortF t s
+
+/-- **`QubitOperator._simplify` is sound**: for every term `t` over actions `I,X,Y,Z`
+(any length, repeated indices in any order) and every basis state `s`, the simplified
+term `t'` with the returned coefficient factor `c` acts as `t` does:
+same target state and `c · i^{k'} = i^{k}`. -/
+theorem simplifyQubit_sound (t : Term) (ht : ActionsOk t) (s : Nat) :
+    let r := simplifyQubit t
+    (actPTerm r.2 s).2 = (actPTerm t s).2 ∧
+    r.1 * GQ.ipow (actPTerm r.2 s).1 = GQ.ipow (actPTerm t s).1 := by
+  have hperm := sortF_perm t
+  have hsort := actPTerm_sortF t s
+  simp only [simplifyQubit]
+  cases hst : sortF t with
+  | nil =>
+    have : t = [] := by rw [hst] at hperm; exact hperm.symm.eq_nil
+    subst this
+    simp [actPTerm, GQ.ipow]
+    decide +kernel
+  | cons l rest =>
+    have hok : ActionsOk (l :: rest) := by
+      intro f hf
+      exact ht f (hperm.mem_iff.mp (by simpa [hst] using hf))
+    have hl : l.2 < 4 := hok l (List.mem_cons_self)
+    have hrest : ActionsOk rest := fun f hf => hok f (List.mem_cons_of_mem _ hf)
+    have key := mergeQK_sound l rest hl hrest (0, s)
+    rw [hst] at hsort
+    simp only [mergeQ_eq]
+    rw [← hsort, actPTerm_eq, actPTerm_eq, key]
+    simp only [shift]
+    refine ⟨trivial, ?_⟩
+    rw [ipow_mul, ← ipow_mod, Nat.add_comm]
+
+/-- **Qubit results are in canonical form**: indices strictly increasing (each index at
+most once, sorted) and no identity factor — for every input term. -/
+theorem simplifyQubit_canonical (t : Term) : Canonical (simplifyQubit t).2 := by
+  simp only [simplifyQubit]
+  have hs := sortF_sorted t
+  cases hst : sortF t with
+  | nil => simp [Canonical]
+  | cons l rest =>
+    rw [hst] at hs
+    simp only [mergeQ_eq]
+    exact (mergeQK_canonical l rest hs).2
+
+/- non-vacuity: a concrete term with repeated indices, out of order, index ≥ 10 -/
+example : ActionsOk [(12, 1), (0, 2), (12, 2), (0, 2), (3, 3)] := by
+  intro f hf; simp at hf; rcases hf with rfl | rfl | rfl | rfl | rfl <;> decide
+example : (simplifyQubit [(12, 1), (0, 2), (12, 2), (0, 2), (3, 3)]).2 = [(3, 3), (12, 3)] := by
+  decide +kernel
+
+
+/-- **`IsingOperator._simplify` is sound**: keeping exactly the indices that occur an odd
+number of times denotes the same operator as the original product of `Z`s. -/
+theorem simplifyIsing_sound (t : Term) (h : AllZ t) (s : Nat) :
+    actPTerm (simplifyIsing t).2 s = actPTerm t s ∧ (simplifyIsing t).1 = 1 := by
+  refine ⟨?_, rfl⟩
+  have hz := zph_simplify t h s
+  have e : (simplifyIsing t).2 = zt (t.foldr (fun f acc => oddInsert f.1 acc) []) := rfl
+  rw [e, actPTerm_eq, actPTerm_eq, foldr_Z t h, foldr_Z _ (allZ_zt _)]
+  generalize t.foldr (fun f acc => oddInsert f.1 acc) [] = L at *
+  by_cases ht : t = []
+  · subst ht
+    cases L with
+    | nil => simp [zt]
+    | cons a r =>
+      have h0 : zph ([] : Term) s = 0 := rfl
+      rw [h0] at hz
+      simp only [zt, List.map_cons, List.cons_ne_nil, if_false, if_true, shift]
+      congr 1
+      simp only [zt, List.map_cons] at hz
+      omega
+  · simp only [ht, if_false]
+    cases L with
+    | nil =>
+      have h0 : zph (zt []) s = 0 := rfl
+      rw [h0] at hz
+      simp only [zt, List.map_nil, if_true, shift]
+      congr 1
+      omega
+    | cons a r =>
+      simp only [zt, List.map_cons, List.cons_ne_nil, if_false]
+      exact shift_congr _ _ hz _
+
+/-- Ising results are in canonical form (indices strictly increasing, only `Z`). -/
+theorem simplifyIsing_canonical (t : Term) : Canonical (simplifyIsing t).2 := by
+  simp only [simplifyIsing, Canonical]
+  refine ⟨?_, ?_⟩
+  · have := oddFold_strict t
+    exact List.Pairwise.map _ (fun a b hab => hab) this
+  · intro f hf
+    simp at hf
+    obtain ⟨_, _, rfl⟩ := hf
+    simp
+
+example : AllZ [(5, 3), (1, 3), (5, 3), (5, 3)] := by
+  intro f hf; simp at hf; rcases hf with rfl | rfl | rfl | rfl <;> rfl
+example : (simplifyIsing [(5, 3), (1, 3), (5, 3), (5, 3)]).2 = [(1, 3), (5, 3)] := by decide
+
+
+/-- The Spec Majorana action satisfies the Clifford relations `γ_m² = 1` and
+`γ_m γ_m' = -γ_m' γ_m` (`m ≠ m'`) on every basis state (sanity of the Spec the Majorana
+theorems are stated against; `shift k` multiplies the phase by `i^k`). -/
+theorem majorana_clifford (m m' : Nat) (x : Nat × Nat) :
+    stepM m (stepM m x) = shift 0 x ∧
+    (m ≠ m' → stepM m (stepM m' x) = shift 2 (stepM m' (stepM m x))) :=
+  ⟨stepM_sq m x, fun h => stepM_anti m m' h x⟩
+
+/-- **`_merge_majorana_terms` (the product of two stored Majorana terms) is sound and
+canonical**: for strictly increasing `l`, `r`, the merged term is strictly increasing and
+`γ_l γ_r |s⟩ = (-1)^parity γ_merged |s⟩` for every basis state — hence
+`MajoranaOperator.__mul__` multiplies each pair of terms correctly. -/
+theorem majorana_merge_sound (l r : List Nat) (hl : l.Pairwise (· < ·)) (hr : r.Pairwise (· < ·))
+    (s : Nat) :
+    (mergeM l r).1.Pairwise (· < ·) ∧
+    actMTerm (l ++ r) s = shift (2 * (mergeM l r).2) (actMTerm (mergeM l r).1 s) := by
+  refine ⟨mergeM_strict l r hl hr, ?_⟩
+  have := mergeM_sound l r hl (0, s)
+  rw [actMTerm_eq, actMTerm_eq, ← this]
+  cases h : l ++ r with
+  | nil => simp [shift]
+  | cons a L => simp only [List.foldr_cons, shift_zero_stepM]
+
+/-- **`MajoranaOperator.__init__` / `_sort_majorana_term` is sound and canonical** for every
+index sequence (any length, repeated indices): output strictly increasing and
+`γ_t |s⟩ = (-1)^parity γ_sorted |s⟩`. -/
+theorem majorana_sort_sound (t : List Nat) (s : Nat) :
+    (sortM t).1.Pairwise (· < ·) ∧
+    actMTerm t s = shift (2 * (sortM t).2) (actMTerm (sortM t).1 s) := by
+  obtain ⟨h1, h2⟩ := sortMFuel_sound t.length t (Nat.le_refl _) (0, s)
+  refine ⟨h1, ?_⟩
+  rw [actMTerm_eq, actMTerm_eq, sortM, ← h2]
+  cases t with
+  | nil => simp [shift]
+  | cons a L => simp only [List.foldr_cons, shift_zero_stepM]
+
+example : (sortM [5, 2, 5, 7, 2, 2]).1 = [2, 7] ∧ (sortM [5, 2, 5, 7, 2, 2]).2 = 1 := by decide +kernel
+
+/-- **Products of qubit terms**: the term `QubitOperator.__imul__` stores for the pair
+`(lt, rt)` — `_simplify(lt + rt)` with its coefficient factor — acts as `lt` after `rt` on every
+basis state (target state and phase).  Together with bilinearity of the dictionary
+accumulation this is `⟦A·B⟧ = ⟦A⟧ ∘ ⟦B⟧`. -/
+theorem mul_term_sound_qubit (lt rt : Term) (hl : ActionsOk lt) (hr : ActionsOk rt) (s : Nat) :
+    let r := simplifyQubit (lt ++ rt)
+    let a2 := actPTerm rt s
+    let a1 := actPTerm lt a2.2
+    (actPTerm r.2 s).2 = a1.2 ∧ r.1 * GQ.ipow (actPTerm r.2 s).1 = GQ.ipow (a2.1 + a1.1) := by
+  have hok : ActionsOk (lt ++ rt) := by
+    intro f hf
+    rcases List.mem_append.mp hf with h | h
+    · exact hl f h
+    · exact hr f h
+  obtain ⟨h1, h2⟩ := simplifyQubit_sound (lt ++ rt) hok s
+  have key := foldr_stepP_from lt (actPTerm rt s)
+  simp only at h1 h2 ⊢
+  rw [h1, h2, actPTerm_eq (lt ++ rt), List.foldr_append, ← actPTerm_eq rt s]
+  refine ⟨key.1, ?_⟩
+  rw [← ipow_mod, key.2, ipow_mod]
 
 end OFV.C01
